@@ -5,6 +5,8 @@ CONSTANTS
   Ops = {"XOR", "XNOR", "AND", "OR", "INV"}
   FreeS = TRUE
   MaxFaults = 1
+  Deviating = FALSE
+  RangeRule = "exact"
 INVARIANT NeverWrong
 INVARIANT Secrecy
 CHECK_DEADLOCK FALSE
